@@ -104,5 +104,10 @@ Step ==
         /\ \E k \in 1..Len(it.pool) : Choose(Leaf(it, k) \o rest, IF k = 1 THEN 0 ELSE 1)
 
 Spec == Init /\ [][Step]_vars
-Emit == (work = <<>> /\ OutFile # "") => CSVWrite("%1$s", <<ToJson([start |-> StartNT, wrap |-> WrapOps, tape |-> tape])>>, OutFile)
+\* Lexical side condition of G: directly after an identifier-like token, a parameter, ')' or ']' a '.' is a field access,
+\* so ".5" there is not a float literal (C14's dot rule, the same in GoogleSQL); such token sequences are not sentences.
+SurfToks == SelectSeq(tape, LAMBDA e : e.i = "T" /\ e.surf)
+DotClash == LET st == SurfToks IN
+  \E k \in 1..(Len(st) - 1) : st[k + 1].s = ".5" /\ (st[k].c \in {"id", "pk", "tn", "param"} \/ st[k].s \in {")", "]"})
+Emit == (work = <<>> /\ OutFile # "" /\ ~DotClash) => CSVWrite("%1$s", <<ToJson([start |-> StartNT, wrap |-> WrapOps, tape |-> tape])>>, OutFile)
 ==============================================================================
